@@ -84,6 +84,8 @@ func VerifC13Idempotent() {
 		s.Nodes["start"].Branches.Branches[0].GuardSource = &ActionSource{Interpreter: "stub", Source: "g"}
 		s.Nodes["other"].ActionSource = &ActionSource{Interpreter: "stub", Source: "a"}
 		s.Nodes["other"].Branches.Type = "bindings"
+		// a guarded branch at the node that has an action
+		s.Nodes["other"].Branches.Branches[0].GuardSource = &ActionSource{Interpreter: "stub", Source: "g2"}
 	}
 	interps := InterpretersMap{"stub": &verifInterp{}}
 	ctx := context.Background()
@@ -91,6 +93,12 @@ func VerifC13Idempotent() {
 	if e1 != nil {
 		verif.Note("rejected")
 		return
+	}
+	if guarded {
+		// whatever the force flag: every source is compiled by a successful Compile
+		verif.Assert("compile-compiles-guard", s.Nodes["start"].Branches.Branches[0].Guard != nil)
+		verif.Assert("compile-compiles-guard-at-action-node", s.Nodes["other"].Branches.Branches[0].Guard != nil)
+		verif.Assert("compile-compiles-action", s.Nodes["other"].Action != nil)
 	}
 	p1 := s.Nodes["start"].Branches.Branches[0].Pattern
 	q1 := s.Nodes["other"].Branches.Branches[0].Pattern
@@ -128,6 +136,9 @@ func VerifC13Reject() {
 		s.Nodes["start"].Branches.Type = "bindings"
 	case 3:
 		s.Nodes["other"].Branches.Branches[0].GuardSource = &ActionSource{Interpreter: "nope", Source: "x"}
+		if verif.Choose("guardAtActionNode", 2) == 1 {
+			s.Nodes["other"].ActionSource = &ActionSource{Interpreter: "stub", Source: "a"}
+		}
 	case 4:
 		s.BootSource = &ActionSource{Interpreter: "nope", Source: "x"}
 	default:
